@@ -408,6 +408,123 @@ def run_c07(seed, spec: dict, change_points=None, trace_funcs=()):
 
 
 # ---------------------------------------------------------------------------
+# size limits of the remote path (oracle only; the model carries whole messages and has no size limit)
+# ---------------------------------------------------------------------------
+
+def live_limits() -> dict:
+    """every MAX_* / size constant of messaging.py and pubsub.py, read from the live code"""
+    import inspect
+    import qmi.core.messaging as MS
+    import qmi.core.pubsub as PS
+    out = {}
+    for mod in (MS, PS):
+        for name, obj in vars(mod).items():
+            if name.isupper() and isinstance(obj, int) and ("MAX" in name or "SIZE" in name):
+                out[f"{mod.__name__}.{name}"] = obj
+            if inspect.isclass(obj) and obj.__module__ == mod.__name__:
+                for k, v in vars(obj).items():
+                    if k.isupper() and isinstance(v, int) and not isinstance(v, bool) and ("MAX" in k or "SIZE" in k):
+                        out[f"{mod.__name__}.{obj.__name__}.{k}"] = v
+    out["qmi.core.pubsub.QMI_SignalReceiver.max_queue_length(default)"] = \
+        inspect.signature(PS.QMI_SignalReceiver.__init__).parameters["max_queue_length"].default
+    return out
+
+
+def run_limits(seed, limit: int, deltas=None):
+    """Publisher in P, receiver in PA (client of P), `_PeerTcpConnection.MAX_MESSAGE_SIZE` lowered to `limit`.
+    For every delta a signal whose pickled message is exactly `limit + delta` bytes long is published, followed by a
+    small one.  Returns (Outcome, list of clauses)."""
+    from harness.simworld import run_scenario
+    deltas = list(deltas if deltas is not None else list(range(-18, 1)) + [1, 2, 3])
+
+    def body(w):
+        import pickle
+        import qmi.core.messaging as MS
+        from qmi.core.pubsub import QMI_SignalReceiver, QMI_SignalMessage, QMI_Signal
+        from qmi.core.messaging import QMI_MessageHandlerAddress
+        from qmi.core.rpc import QMI_RpcObject
+        from harness import detsched as D
+
+        class Pub(QMI_RpcObject):
+            sa = QMI_Signal([int, bytes])
+
+        saved = MS._PeerTcpConnection.MAX_MESSAGE_SIZE
+        MS._PeerTcpConnection.MAX_MESSAGE_SIZE = limit
+        try:
+            P = w.context("P", server=True)
+            PA = w.context("PA", server=True)
+            w.connect(PA, P)
+            P.make_rpc_object("pm1", Pub)
+            rcv = QMI_SignalReceiver(max_queue_length=100000)
+            PA.subscribe_signal("P", "pm1", "sa", rcv)
+
+            def size_of(uid, n):
+                m = QMI_SignalMessage(QMI_MessageHandlerAddress("P", "pm1"), QMI_MessageHandlerAddress("PA", "$pubsub"),
+                                      "sa", (uid, b"\0" * n))
+                return len(pickle.dumps(m))
+            sent = []          # (uid, target size or None, accepted by the sender's rule, raised at publisher)
+            uid = 100000
+            for d in deltas:
+                uid += 1
+                target = limit + d
+                n = max(0, target - size_of(uid, 0))
+                for _ in range(12):
+                    cur = size_of(uid, n)
+                    if cur == target:
+                        break
+                    n = max(0, n + (target - cur))
+                if size_of(uid, n) != target:
+                    continue                      # this exact size is not reachable (pickle length-encoding step)
+                raised = None
+                try:
+                    P.publish_signal("pm1", "sa", uid, b"\0" * n)
+                except D.SchedAbort:
+                    raise
+                except BaseException as e:  # noqa
+                    raised = type(e).__name__
+                sent.append((uid, target, target <= limit, raised))
+                uid += 1
+                raised = None
+                try:
+                    P.publish_signal("pm1", "sa", uid, b"")
+                except D.SchedAbort:
+                    raise
+                except BaseException as e:  # noqa
+                    raised = type(e).__name__
+                sent.append((uid, None, True, raised))
+                D.TIME_SHIM.sleep(1.0)
+            D.TIME_SHIM.sleep(1.0)
+            got = [(s.args[0], len(s.args[1])) for s in list(rcv._queue)]
+            still = PA.has_peer_context("P")
+            return sent, got, still
+        finally:
+            MS._PeerTcpConnection.MAX_MESSAGE_SIZE = saved
+
+    out = run_scenario(seed, body, policy="weighted", max_steps=400000)
+    bad = []
+    if out.deadlock:
+        return out, [("limits:deadlock", out.deadlock[:200])]
+    if out.error is not None:
+        return out, [("limits:scenario-error:" + type(out.error).__name__, repr(out.error)[:300])]
+    (sent, got, still) = out.value
+    got_ids = [g[0] for g in got]
+    for (uid, target, accepted, raised) in sent:
+        if accepted and raised is None and got_ids.count(uid) != 1:
+            what = "signal-at-size-limit-lost" if target is not None else "signal-after-size-limit-signal-lost"
+            bad.append((f"limits:{what}", f"MAX_MESSAGE_SIZE={limit}: signal {uid}" +
+                        (f" (pickled size {target} = limit{target - limit:+d}, accepted by the sender)" if target is not None else " (small, published after a near-limit signal)") +
+                        f" arrived {got_ids.count(uid)} times; connection still up: {still}"))
+    if got_ids != sorted(got_ids):
+        bad.append(("limits:out-of-order", f"MAX_MESSAGE_SIZE={limit}: arrival order {got_ids[:12]}"))
+    seen_c, out_l = set(), []
+    for (c_, d) in bad:
+        if c_ not in seen_c:
+            seen_c.add(c_)
+            out_l.append((c_, d))
+    return out, out_l
+
+
+# ---------------------------------------------------------------------------
 # the property oracle (event log + final queues only)
 # ---------------------------------------------------------------------------
 
@@ -503,7 +620,14 @@ def oracle(spec: dict, out, tr) -> list:
                 who = f"m u {t[1]} {t[2]} L"
                 if any(x == who for x in tr.lines[i + 1:lb]):
                     sent = True
-        arrived = any(l.startswith("arrive ") and l.endswith(pat) for l in tr.lines[lb:])
+        # the notice takes effect in the lock section of _handle_remote_signal_removed (socket thread of the subscriber)
+        arrived = False
+        wipe = f"m s {tr.cid(spec['rcvs'][key[0]])} L"
+        for j, l in enumerate(tr.lines):
+            if l.startswith("arrive ") and l.endswith(pat):
+                jj = next((x for x in range(j + 1, len(tr.lines)) if tr.lines[x] == wipe), len(tr.lines))
+                if jj > lb:
+                    arrived = True
         return ":joined-stale-set-before-removal-notice" if (sent and arrived) else ""
 
     def possibly_subscribed(key, pub_begin, at) -> bool:
@@ -687,7 +811,7 @@ class C07(Prop):
         res = Result(rule="scenario = (contexts, publishers, receivers, pre-subscriptions, subscriber-thread op lists, publication "
                           "bursts, scheduling policy) from the seeded PRNG + a schedule derived from the scenario seed; non-trivial = at "
                           "least one delivery and one concurrent subscriber thread; distinct by (seed, scenario)")
-        n = ctx.scale(1000, 8000)
+        n = ctx.scale(850, 8000)
         cases = []
         for i in range(n):
             seed = ctx.rng.randrange(1 << 30)
@@ -695,7 +819,26 @@ class C07(Prop):
         step = 50
         for i in range(0, len(cases), step):
             self._run_batch(ctx, cases[i:i + step], res, "random")
+        self._limits(ctx, res, ctx.scale(6, 40))
         return res
+
+    def _limits(self, ctx: Ctx, res: Result, n: int):
+        """signals whose pickled size is at / just below / just above MAX_MESSAGE_SIZE over the remote path"""
+        res.extra["live_limits"] = live_limits()
+        for _ in range(n):
+            seed = ctx.rng.randrange(1 << 30)
+            limit = ctx.rng.randint(3000, 20000)
+            out, bad = run_limits(seed, limit)
+            res.note_case(("limits", seed, limit))
+            res.count("limit_scenarios")
+            if out.error is None and not out.deadlock:
+                (sent, got, still) = out.value
+                res.count("limit_signals_published", len(sent))
+                res.count("limit_signals_refused_silently_by_sender", sum(1 for x in sent if not x[2] and x[3] is None))
+            for (clause, detail) in bad:
+                if sum(1 for f in res.failures if f.signature == f"C07:{clause}") < 1:
+                    res.failures.append(Failure(f"C07:{clause}", f"seed={seed}: {detail}",
+                                                {"kind": "limits", "seed": seed, "limit": limit, "clause": clause}))
 
     def search(self, ctx: Ctx, broken) -> Result:
         res = Result()
@@ -739,6 +882,12 @@ class C07(Prop):
         return res
 
     def replay(self, ctx: Ctx, rp: dict):
+        if rp.get("kind") == "limits":
+            out, bad = run_limits(rp["seed"], rp["limit"])
+            for (clause, detail) in bad:
+                if clause == rp.get("clause"):
+                    return Failure(f"C07:{clause}", detail, rp)
+            return Failure(f"C07:{bad[0][0]}", bad[0][1], rp) if bad else None
         out, tr = run_c07(rp["seed"], rp["spec"], change_points=rp.get("change_points"))
         if tr is None:
             return None
